@@ -927,24 +927,24 @@ func init() {
 				Rule: "the C08 choice tree restricted to what Create*/Set* can express from scratch (no pointer_field, cw_index 0, no foreign descriptors, component-mode splice_insert without components), deviations <= 4 (thorough 5): signal built purely by CreateSCTE35/CreateTimeSignalCommand/CreateSpliceInsertCommand/CreateSegmentationDescriptor/CreateComponentOffset/CreateUPID + setters in two call orders; " +
 					"all getters == values set; Data() empty before the first UpdateData(); " + c09Oracle + "; then SetTier: Data() unchanged until the next UpdateData(), which encodes the new tier; non-trivial = at least one deviation",
 				Bound: c09Bound(4, 5),
-				Body: func(ch *engine.Chooser) engine.Result {
+				Body: witnessTree(func(ch *engine.Chooser) engine.Result {
 					var res engine.Result
 					sec := c08GenSection(ch, true)
 					c09CheckBuild(&res, &sec, true)
 					return res
-				},
+				}, witnessSCTE),
 			},
 			&engine.Tree{
 				Name: "reencode-fields",
 				Rule: "the full C08 choice tree (see C08 decode-fields), deviations <= 4 (thorough 6): reference encoding -> NewSCTE35 -> UpdateData() must be byte-identical to the input section when no segmentation descriptor precedes a foreign one; otherwise the output must parse (reference parser) to the same values with the two descriptor classes in their own order; " +
 					"Data() == returned bytes; second UpdateData() identical; getters unchanged by encoding; non-trivial = at least one deviation",
 				Bound: c09Bound(4, 6),
-				Body: func(ch *engine.Chooser) engine.Result {
+				Body: witnessTree(func(ch *engine.Chooser) engine.Result {
 					var res engine.Result
 					sec := c08GenSection(ch, false)
 					c09CheckReencode(&res, &sec, true)
 					return res
-				},
+				}, witnessSCTE),
 			},
 			&engine.Enum[c08ProductCase]{
 				Name: "build-reencode-descriptor-product",
